@@ -1275,8 +1275,24 @@ func (eval Evaluator) RotateHoistedNew(ctIn *rlwe.Ciphertext, rotations []int) (
 // It is much faster than sequential calls to [Evaluator.Rotate].
 func (eval Evaluator) RotateHoisted(ctIn *rlwe.Ciphertext, rotations []int, opOut map[int]*rlwe.Ciphertext) (err error) {
 	levelQ := ctIn.Level()
-	eval.DecomposeNTT(levelQ, eval.GetParameters().MaxLevelP(), eval.GetParameters().PCount(), ctIn.Value[1], ctIn.IsNTT, eval.BuffDecompQP)
+	levelP := eval.GetParameters().MaxLevelP()
+	eval.DecomposeNTT(levelQ, levelP, eval.GetParameters().PCount(), ctIn.Value[1], ctIn.IsNTT, eval.BuffDecompQP)
 	for _, i := range rotations {
+
+		// The input is decomposed once, at the maximum LevelP, for all the rotations: a Galois
+		// key at another LevelP would interpret this decomposition with another digit size.
+		if galEl := eval.GetParameters().GaloisElement(i); galEl != 1 {
+
+			var evk *rlwe.GaloisKey
+			if evk, err = eval.CheckAndGetGaloisKey(galEl); err != nil {
+				return fmt.Errorf("cannot RotateHoisted: %w", err)
+			}
+
+			if evk.LevelP() != levelP {
+				return fmt.Errorf("cannot RotateHoisted: GaloisKey[%d].LevelP()=%d but the keys must be at the maximum LevelP=%d", galEl, evk.LevelP(), levelP)
+			}
+		}
+
 		if err = eval.AutomorphismHoisted(levelQ, ctIn, eval.BuffDecompQP, eval.GetParameters().GaloisElement(i), opOut[i]); err != nil {
 			return fmt.Errorf("cannot RotateHoisted: %w", err)
 		}
